@@ -352,4 +352,5 @@ def run(rep, tier):
     fbt = facts.FactBase(C05.TUS)
     C05.check_conflict_terms(rep, 'R04.8', fbt)
     C05.check_history_completion(rep, 'R04.8', fbt)
+    C05.check_exit_set_vocabulary(rep, 'R04.8', fbt)
     _domain.check(rep, 'R04.8', fbt, [fbt.fn('uscxml::getTransitionDomain'), fbt.fn('uscxml::findLCCA')], 'Predicates')
